@@ -659,7 +659,7 @@ func c06Oracle(g *Gen, n int) {
 		g.Case("check")
 		got := module.Check(p, v) == nil
 		want := mod && semver.IsValid(v) && c06SpecMajorMatches(maj, v)
-		if got != want && !(mod && c06IsUnstableNoNumber(p)) {
+		if got != want {
 			g.Fail("Check(path, version) is not CheckPath && IsValid && major-matches", strconv.Quote(p)+" "+strconv.Quote(v), "module.check "+hx(p)+" "+hx(v))
 		}
 		if mod && semver.IsValid(v) {
